@@ -313,7 +313,7 @@ partial def loop (lines : Array String) (i : Nat) (st : Option DState) : IO Unit
         IO.println s!"case {id}"
         let n := (rest.head?.bind (·.toNat?)).getD 0
         let n := if n > 64 then 0 else n
-        if ty == "int" || ty == "void" || ty == "mo" then
+        if ty == "int" || ty == "void" || ty == "mo" || ty == "ref" then
           loop lines (i+1) (some { s := init (fun _ => []) n, isVoid := ty == "void" })
         else
           IO.println "bad-kind"
